@@ -61,3 +61,57 @@ Definition dup_ops : list op :=
 Example compaction_dup_stalls :
   returns (run0 2 dup_ops) = [mk 0 0 1] /\ returns (run0 100 dup_ops) = [mk 0 0 3].
 Proof. vm_compute. split; reflexivity. Qed.
+
+(* ---------- the minimal repair (not applied; see the report) ----------
+   CheckpointNow skipping a value that is Before the last persisted one:
+       if seq.Before(c.lastCheckpointSeq) { return }
+   [guarded cur rets] is what would then be persisted out of the returned values [rets].  It is a sub-list
+   of the returned values (so every persisted value is still safe when it is persisted, by
+   C17_checkpoint_safe) and it never decreases, for EVERY operation list: the full statement would hold. *)
+Fixpoint guarded (cur : option seqid) (rets : list seqid) : list seqid :=
+  match rets with
+  | [] => []
+  | s :: r =>
+      match cur with
+      | Some c => if before s c then guarded cur r else s :: guarded (Some s) r
+      | None => s :: guarded (Some s) r
+      end
+  end.
+
+Lemma guarded_incl rets : forall cur s, In s (guarded cur rets) -> In s rets.
+Proof.
+  induction rets as [|x r IH]; cbn [guarded]; intros cur s H; [destruct H|].
+  destruct cur as [c|]; [destruct (before x c)|]; cbn [In] in *.
+  - right; eapply IH; exact H.
+  - destruct H as [H|H]; [left; exact H|right; eapply IH; exact H].
+  - destruct H as [H|H]; [left; exact H|right; eapply IH; exact H].
+Qed.
+
+Lemma guarded_sorted rets : forall cur,
+  StronglySorted sle (guarded cur rets) /\
+  Forall (fun s => forall c, cur = Some c -> sle c s) (guarded cur rets).
+Proof.
+  induction rets as [|x r IH]; cbn [guarded]; intros cur; [split; constructor|].
+  assert (Hkeep : (forall c, cur = Some c -> sle c x) ->
+            StronglySorted sle (x :: guarded (Some x) r) /\
+            Forall (fun s => forall c, cur = Some c -> sle c s) (x :: guarded (Some x) r)).
+  { intros Hcx. destruct (IH (Some x)) as [Hs Hall]. rewrite Forall_forall in Hall. split.
+    - constructor; [exact Hs|]. apply Forall_forall; intros s Hs'. apply (Hall s Hs'); reflexivity.
+    - constructor; [exact Hcx|]. apply Forall_forall; intros s Hs' c Hc.
+      eapply sle_trans; [apply Hcx; exact Hc|apply (Hall s Hs'); reflexivity]. }
+  destruct cur as [c|].
+  - destruct (before x c) eqn:Hb.
+    + apply IH.
+    + apply Hkeep. intros c0 E; inversion E; subst. exact Hb.
+  - apply Hkeep. intros c0 E; discriminate E.
+Qed.
+
+Lemma repaired_persist_monotone_unconditionally : forall thr ops,
+  StronglySorted sle (guarded None (returns (run0 thr ops))) /\
+  (forall s, In s (guarded None (returns (run0 thr ops))) -> In s (returns (run0 thr ops))).
+Proof.
+  intros thr ops. split; [apply guarded_sorted|apply guarded_incl].
+Qed.
+
+Example repaired_on_the_witness : guarded None (returns (run0 100 regress_ops)) = [mk 0 0 20].
+Proof. vm_compute. reflexivity. Qed.
